@@ -48,24 +48,9 @@
 (* observes it on real bytes).  The amount of padding is a nondeterministic   *)
 (* choice bounded exactly as in PackInPlace; TLC follows the two extreme      *)
 (* choices (1 and the bound), every position is affine in the padding.        *)
-EXTENDS Integers, TLC
+EXTENDS UdpCodec
 
 CONSTANTS
-    \* ---- constants of the code (lib/props/c05.py reads them from the compiled code: harness/cmd/vconst/packet.go)
-    SepLen,         \* ss2022.UDPSeparateHeaderLength: session id + packet id
-    IdLen,          \* ss2022.IdentityHeaderLength
-    CFix,           \* ss2022.UDPClientMessageHeaderFixedLength: type + timestamp + padding length
-    SFix,           \* ss2022.UDPServerMessageHeaderFixedLength: + client session id
-    Tag,            \* AEAD overhead (Headroom.Rear of the Shadowsocks 2022 codecs)
-    PadCap,         \* largest value of the u16 padding length field (math.MaxUint16 in PackInPlace)
-    Rsv,            \* SOCKS5 UDP request header before the address: RSV RSV FRAG
-    V4Len, V6Len,   \* socks5.IPv4AddrLen, socks5.IPv6AddrLen
-    DomFix,         \* ATYP + length octet + port of a domain address (socks5.MaxAddrLen - 255)
-    IPv4Hdr, IPv6Hdr, UdpHdr, JumboOpt, JumboMtu,   \* zerocopy.MaxPacketSizeForAddr
-    HrCP,           \* protocol -> [front, rear]: headroom advertised for the ClientPacker (UDPClient.Info)
-    HrSU,           \* ... for the ServerUnpacker (UDPNATServer.Info / UDPSessionServer.Info)
-    HrSP,           \* ... by ServerPacker.ServerPackerInfo
-    HrCU,           \* ... by ClientUnpacker.ClientUnpackerInfo
     \* ---- exploration space
     Gen,            \* how far beyond the advertised headroom a "generous" sender puts the payload
     Groups,         \* the (direction, server protocol, client protocol) triples explored
@@ -85,85 +70,6 @@ VARIABLES
 
 sv == <<c, stage, o, rb, u1, r, u2, canon>>
 vars == <<sv, act>>
-
------------------------------------------------------------------------------
-(* arithmetic *)
-Max2(a, b) == IF a >= b THEN a ELSE b
-Min2(a, b) == IF a <= b THEN a ELSE b
-Min3(a, b, d) == Min2(a, Min2(b, d))
-MaxOf(S) == CHOOSE m \in S : \A x \in S : x <= m
-
-(* protocols *)
-SSProtos == {"ss0", "ss1", "ss2", "ss3"}                \* Shadowsocks 2022 with 0..3 identity headers
-ServerProtos == {"ss0", "ss1", "none", "socks5", "direct"}   \* a 2022 server strips exactly 0 or 1 identity header
-ClientProtos == SSProtos \cup {"none", "socks5", "direct"}
-IsSS(p) == p \in SSProtos
-Eih(p) == CASE p = "ss1" -> 1 [] p = "ss2" -> 2 [] p = "ss3" -> 3 [] OTHER -> 0
-
-(* addresses: [k, n, port]; k = "v4" | "m4" (IPv4-mapped IPv6) | "v6" | "dom", n = domain length (0 for IP)  *)
-IsIP(a) == a.k \in {"v4", "m4", "v6"}
-\* socks5.LengthOfAddrFromAddrPort / LengthOfAddrFromConnAddr
-AddrLen(a) == CASE a.k \in {"v4", "m4"} -> V4Len [] a.k = "v6" -> V6Len [] OTHER -> DomFix + a.n
-\* socks5.WriteAddrFrom*: an IPv4-mapped IPv6 address goes on the wire as IPv4 and comes back as IPv4
-Norm(a) == IF a.k = "m4" THEN [a EXCEPT !.k = "v4"] ELSE a
-\* address family as zerocopy.MaxPacketSizeForAddr sees it (Is4 || Is4In6)
-FamOf(a) == IF a.k \in {"v4", "m4"} THEN "v4" ELSE "v6"
-NoAddr == [k |-> "-", n |-> 0, port |-> 0]
-
-\* zerocopy.MaxPacketSizeForAddr
-MaxPacketSize(mtu, fam) ==
-    IF fam = "v4" THEN mtu - IPv4Hdr - UdpHdr
-    ELSE IF mtu > JumboMtu THEN mtu - IPv6Hdr - JumboOpt - UdpHdr
-    ELSE mtu - IPv6Hdr - UdpHdr
-
-\* what the network allows, independent of the code's constants: the IP packet that carries a UDP datagram of n
-\* bytes (RFC 791: 20, RFC 8200: 40, RFC 768: 8, RFC 2675: the jumbo payload option when the 16-bit length overflows)
-WireSize(n, fam) == IF fam = "v4" THEN 20 + 8 + n ELSE IF 8 + n > 65535 THEN 40 + 8 + 8 + n ELSE 40 + 8 + n
-
-\* zerocopy.MaxHeadroom, zerocopy.UDPRelayHeadroom
-MaxHeadroom(h1, h2) == [front |-> Max2(h1.front, h2.front), rear |-> Max2(h1.rear, h2.rear)]
-RelayHeadroom(packer, unpacker) ==
-    [front |-> Max2(0, packer.front - unpacker.front), rear |-> Max2(0, packer.rear - unpacker.rear)]
-
-(* message kinds: "c2s" = client message (ClientPacker -> ServerUnpacker), "s2c" = server message *)
-\* header in front of the payload when no padding is added
-Hdr0(p, kind, a) ==
-    CASE IsSS(p) /\ kind = "c2s" -> SepLen + Eih(p) * IdLen + CFix + AddrLen(a)     \* headerNoPaddingLen, client packer
-      [] IsSS(p) /\ kind = "s2c" -> SepLen + SFix + AddrLen(a)                      \* headerNoPaddingLen, server packer
-      [] p = "none" -> AddrLen(a)
-      [] p = "socks5" -> Rsv + AddrLen(a)
-      [] OTHER -> 0                                                                 \* direct
-TagLen(p) == IF IsSS(p) THEN Tag ELSE 0
-
-\* ss2022.NoPadding / PadPlainDNS / PadAll
-ShouldPad(pol, a) == pol = "all" \/ (pol = "dns" /\ a.port = 53)
-
-\* maxPaddingLen of the two Shadowsocks 2022 PackInPlace methods
-PadBudget(maxp, h, L) == maxp - h - L - Tag
-PadRoom(ps, h) == ps - h
-PadBound(maxp, h, L, ps) == Min3(PadBudget(maxp, h, L), PadRoom(ps, h), PadCap)
-\* 1 + mrand.IntN(maxPaddingLen): any of 1..bound; TLC follows the two ends
-PadChoices(bound, should) == IF should /\ bound > 0 THEN {1, bound} ELSE {0}
-
-NoPack == [err |-> FALSE, start |-> 0, len |-> 0, pad |-> 0, lo |-> 0, hi |-> 0, h |-> 0, need |-> 0, max |-> 0,
-           budget |-> 0, room |-> 0, sp |-> FALSE, ps |-> 0, buflen |-> 0]
-\* PackInPlace(b, addr, payloadStart = ps, payloadLen = L) with packet size limit maxp and padding `pad`.
-\* [lo, hi) is the hull of the bytes the packer writes.  `need` = smallest packet that carries the payload.
-Pack(p, kind, a, ps, L, maxp, pol, pad, buflen) ==
-    LET h == Hdr0(p, kind, a)
-        base == [NoPack EXCEPT !.h = h, !.need = h + L + TagLen(p), !.max = maxp, !.ps = ps, !.buflen = buflen,
-                               !.budget = PadBudget(maxp, h, L), !.room = PadRoom(ps, h), !.sp = ShouldPad(pol, a)]
-    IN IF IsSS(p) THEN
-           IF PadBound(maxp, h, L, ps) < 0
-           THEN [base EXCEPT !.err = TRUE, !.lo = ps, !.hi = ps]                      \* ErrPayloadTooBig, nothing written
-           ELSE [base EXCEPT !.start = ps - h - pad, !.len = h + pad + L + Tag, !.pad = pad,
-                             !.lo = ps - h - pad, !.hi = ps + L + Tag]                \* header, sealed body, tag
-       ELSE IF p = "direct" THEN
-           [base EXCEPT !.err = L > maxp, !.start = ps, !.len = L, !.lo = ps, !.hi = ps]
-       ELSE \* none, socks5: the header is written before the size is judged
-           [base EXCEPT !.err = h + L > maxp, !.start = ps - h, !.len = h + L, !.lo = ps - h, !.hi = ps]
-PackPads(p, kind, a, ps, L, maxp, pol) ==
-    IF IsSS(p) THEN PadChoices(PadBound(maxp, Hdr0(p, kind, a), L, ps), ShouldPad(pol, a)) ELSE {0}
 
 -----------------------------------------------------------------------------
 (* the case and what the services derive from it (x is a case record, see CaseOK) *)
